@@ -164,6 +164,40 @@ def check(facts):
             r.fail(key, "chooses a group by name alone (no test whether the capture participated): with duplicate names in different "
                         "alternatives it reports the first group even when another one matched", facts.loc(names[0]))
 
+    # (b3) the same for any other api function that looks a group up by name in `group_names`
+    known = {"api::Match::named_group"} | {re.sub(r"(::\{closure#\d+\})+$", "", n) for n in facts.body_names()
+                                              if n.endswith("Iterator>::next") and "NamedGroups" in n}
+    groups = {}
+    for n in facts.body_names():
+        base = re.sub(r"(::\{closure#\d+\})+$", "", n)
+        if "::tests::" in n or not (base.startswith("api::") or base.startswith("<api::")) or base in known:
+            continue
+        groups.setdefault(base, []).append(n)
+    for base, members in sorted(groups.items()):
+        reads_names = looks_up = touches = False
+        part = []
+        for n in members:
+            b = facts.body(n)
+            txt = json.dumps(b.j)
+            reads_names = reads_names or '"group_names"' in txt
+            touches = touches or '"captures"' in txt
+            for bb, t in b.iter_calls():
+                cal = t.get("callee") or ""
+                last = cal.split("::")[-1]
+                if last in ("eq", "ne", "position", "rposition", "find", "find_map", "any", "contains", "binary_search") or "PartialEq" in cal:
+                    looks_up = True
+                if last in PARTICIPATION_CALLS:
+                    part.append(last)
+        if not (reads_names and looks_up):
+            continue
+        key = "%s consults participation" % base
+        if touches and part:
+            r.ok(key, "; ".join(part[:3]))
+        else:
+            r.fail(key, "%s looks a group up by name in `group_names` without a test whether the capture participated: with duplicate names "
+                        "in different alternatives it resolves to the first group carrying the name even when another one matched "
+                        "(`${y}` expands to nothing for the second alternative)" % base.split("::")[-1], facts.loc(members[0]))
+
     # (b2) the duplicate scan of NamedGroups::next leaves its loop early only when a participating duplicate was found
     ng = [n for n in facts.body_names() if n.endswith("Iterator>::next") and "NamedGroups" in n]
     if ng:
